@@ -2,8 +2,11 @@ package rules
 
 import (
 	"fmt"
+	"go/ast"
+	"go/constant"
 	"go/token"
 	"go/types"
+	"regexp"
 
 	"golang.org/x/tools/go/ssa"
 
@@ -151,4 +154,205 @@ func lengthGuard(site strSliceSite) string {
 		}
 	}
 	return ""
+}
+
+// GlobalRegexpPattern is set by the rule driver: it resolves a package-level *regexp.Regexp variable to the constant
+// pattern it is compiled from ("" if unknown).
+var GlobalRegexpPattern func(g *ssa.Global) string
+
+// regexpGroupsOf: number of capture groups of the regexp value v when it is a package-level variable initialised with
+// regexp.MustCompile(<constant>); -1 if unknown.
+func regexpGroupsOf(v ssa.Value) int {
+	ld, ok := v.(*ssa.UnOp)
+	if !ok || ld.Op != token.MUL {
+		return -1
+	}
+	g, ok := ld.X.(*ssa.Global)
+	if !ok || GlobalRegexpPattern == nil {
+		return -1
+	}
+	pat := GlobalRegexpPattern(g)
+	if pat == "" {
+		return -1
+	}
+	re, err := regexp.Compile(pat)
+	if err != nil {
+		return -1
+	}
+	return re.NumSubexp()
+}
+
+// constIndexSites: constant index / slice bound on general slices (not strings, not the variadic args handled by R3).
+func constIndexSites(fn *ssa.Function) []strSliceSite {
+	var out []strSliceSite
+	core.EachInstr(fn, false, func(f *ssa.Function, in ssa.Instruction) {
+		switch x := in.(type) {
+		case *ssa.IndexAddr:
+			if _, ok := x.X.Type().Underlying().(*types.Slice); !ok || isStringOrBytes(x.X.Type()) {
+				return
+			}
+			if k, ok := core.ConstInt(x.Index); ok {
+				out = append(out, strSliceSite{f, in, x.X, k + 1, fmt.Sprintf("[%d]", k)})
+			}
+		case *ssa.Slice:
+			if _, ok := x.X.Type().Underlying().(*types.Slice); !ok || isStringOrBytes(x.X.Type()) {
+				return
+			}
+			var need int64 = -1
+			expr := ""
+			if x.Low != nil {
+				if k, ok := core.ConstInt(x.Low); ok && k >= 1 {
+					need, expr = k, fmt.Sprintf("[%d:]", k)
+				}
+			}
+			if x.High != nil {
+				if k, ok := core.ConstInt(x.High); ok && k >= 1 && k > need {
+					need, expr = k, fmt.Sprintf("[:%d]", k)
+				}
+			}
+			if need >= 1 {
+				out = append(out, strSliceSite{f, in, x.X, need, expr})
+			}
+		}
+	})
+	return out
+}
+
+// sliceLenLB: lower bound of len(base) at block b by range analysis over len(base) comparisons (canon-equal operands),
+// plus structural knowledge about the producer of base.
+func sliceLenLB(b *ssa.BasicBlock, base ssa.Value) (int64, string) {
+	cb := canon(base)
+	isLen := func(v ssa.Value) bool {
+		c, ok := v.(*ssa.Call)
+		if !ok {
+			return false
+		}
+		bi, ok := c.Call.Value.(*ssa.Builtin)
+		return ok && bi.Name() == "len" && (c.Call.Args[0] == base || canon(c.Call.Args[0]) == cb)
+	}
+	m := core.ForwardLowerBound(b.Parent(), 0, func(cond ssa.Value, taken bool) (int64, bool) {
+		bo, ok := cond.(*ssa.BinOp)
+		if !ok {
+			return 0, false
+		}
+		op := bo.Op
+		var c int64
+		if isLen(bo.X) {
+			n, isC := core.ConstInt(bo.Y)
+			if !isC {
+				return 0, false
+			}
+			c = n
+		} else if isLen(bo.Y) {
+			n, isC := core.ConstInt(bo.X)
+			if !isC {
+				return 0, false
+			}
+			c = n
+			switch op {
+			case token.LSS:
+				op = token.GTR
+			case token.GTR:
+				op = token.LSS
+			case token.LEQ:
+				op = token.GEQ
+			case token.GEQ:
+				op = token.LEQ
+			}
+		} else {
+			return 0, false
+		}
+		switch {
+		case op == token.EQL && taken, op == token.NEQ && !taken:
+			return c, true
+		case op == token.GTR && taken, op == token.LEQ && !taken:
+			return c + 1, true
+		case op == token.GEQ && taken, op == token.LSS && !taken:
+			return c, true
+		case op == token.NEQ && taken && c == 0, op == token.EQL && !taken && c == 0:
+			return 1, true
+		}
+		return 0, false
+	})
+	lb := m[b]
+	why := "len comparison"
+	// producers with a known minimum length
+	switch x := core.StripConv(base).(type) {
+	case *ssa.Call:
+		if o := core.CalleeObj(&x.Call); o != nil {
+			switch core.ObjName(o) {
+			case "strings.Split", "strings.SplitN", "strings.SplitAfter", "bytes.Split":
+				if lb < 1 {
+					lb, why = 1, core.ObjName(o)+" returns at least one element"
+				}
+			case "regexp.Regexp.FindStringSubmatch", "regexp.Regexp.FindSubmatch", "regexp.Regexp.FindStringSubmatchIndex", "regexp.Regexp.FindStringIndex":
+				// a non-nil result holds the whole match and one element per capture group
+				if nilGuarded(b, base) {
+					n := int64(1)
+					if g := regexpGroupsOf(x.Call.Args[0]); g >= 0 && (o.Name() == "FindStringSubmatch" || o.Name() == "FindSubmatch") {
+						n = int64(g) + 1
+					}
+					if n > lb {
+						lb, why = n, fmt.Sprintf("non-nil %s result has %d elements", o.Name(), n)
+					}
+				}
+			}
+		}
+	case *ssa.Slice:
+		if al, ok := x.X.(*ssa.Alloc); ok {
+			if at, ok := al.Type().Underlying().(*types.Pointer).Elem().Underlying().(*types.Array); ok && x.Low == nil && x.High == nil {
+				if at.Len() > lb {
+					lb, why = at.Len(), "literal of known length"
+				}
+			}
+		}
+	case *ssa.MakeSlice:
+		if k, ok := core.ConstInt(x.Len); ok && k > lb {
+			lb, why = k, "make with constant length"
+		}
+	}
+	return lb, why
+}
+
+
+// installRegexpResolver wires GlobalRegexpPattern to the AST of the loaded program.
+func installRegexpResolver(p *core.Program) {
+	cache := map[*ssa.Global]string{}
+	GlobalRegexpPattern = func(g *ssa.Global) string {
+		if s, ok := cache[g]; ok {
+			return s
+		}
+		cache[g] = ""
+		pk := p.ByPkg[g.Pkg.Pkg.Path()]
+		if pk == nil {
+			return ""
+		}
+		for _, f := range pk.Syntax {
+			for _, d := range f.Decls {
+				gd, ok := d.(*ast.GenDecl)
+				if !ok || gd.Tok != token.VAR {
+					continue
+				}
+				for _, sp := range gd.Specs {
+					vs := sp.(*ast.ValueSpec)
+					for i, nm := range vs.Names {
+						if nm.Name != g.Name() || i >= len(vs.Values) {
+							continue
+						}
+						call, ok := vs.Values[i].(*ast.CallExpr)
+						if !ok || len(call.Args) != 1 {
+							continue
+						}
+						if sel, ok := call.Fun.(*ast.SelectorExpr); !ok || sel.Sel.Name != "MustCompile" {
+							continue
+						}
+						if tv, ok := pk.TypesInfo.Types[call.Args[0]]; ok && tv.Value != nil && tv.Value.Kind() == constant.String {
+							cache[g] = constant.StringVal(tv.Value)
+						}
+					}
+				}
+			}
+		}
+		return cache[g]
+	}
 }
